@@ -23,10 +23,16 @@ type Flow struct {
 	// Inter: follow calls to in-scope functions into the origins of their returned values
 	// (parameters are mapped back to the call's arguments).
 	Inter bool
+	// Callers: follow an unbound parameter of an in-scope, unexported function to the
+	// arguments at its static call sites (helper extraction).
+	Callers *ipIndex
+	// Opaque functions are never entered (their call is an origin of its own); exported
+	// functions are always opaque (API boundaries such as EventType).
+	Opaque map[*ssa.Function]bool
 }
 
 func NewFlow(p *Prog, cells *cellIndex) *Flow {
-	return &Flow{p: p, cells: cells, Through: map[string][]int{
+	return &Flow{p: p, cells: cells, Inter: true, Callers: newIPIndex(p), Through: map[string][]int{
 		"context.WithValue": {0}, "context.WithTimeout": {0}, "context.WithCancel": {0}, "context.WithDeadline": {0},
 
 		"fmt.Errorf":            {-1}, "fmt.Sprintf": {-1}, "fmt.Sprint": {-1},
@@ -95,6 +101,18 @@ func (r *flowRun) walk(v ssa.Value) {
 		if b, ok := r.bind[v]; ok {
 			r.walk(b)
 			return
+		}
+		if ix := r.f.Callers; ix != nil && r.depth < 4 {
+			f := v.Parent()
+			exported := f.Object() != nil && f.Object().Exported() && f.Signature.Recv() == nil
+			if args := ix.argFor(v); len(args) > 0 && len(args) <= 3 && !exported && f.Parent() == nil {
+				r.depth++
+				for _, a := range args {
+					r.walk(a)
+				}
+				r.depth--
+				return
+			}
 		}
 		r.out["param:"+FuncDisplay(v.Parent())+"."+v.Name()] = true
 	case *ssa.FreeVar:
@@ -268,7 +286,8 @@ func (r *flowRun) call(c *ssa.Call, idx int) {
 			if o := sc.Origin(); o != nil {
 				fn = o
 			}
-			if r.f.p.InScope(fn) && len(fn.Blocks) > 0 {
+			exported := fn.Object() != nil && fn.Object().Exported()
+			if r.f.p.InScope(fn) && len(fn.Blocks) > 0 && !exported && !r.f.Opaque[fn] {
 				for i, p := range fn.Params {
 					if i < len(cc.Args) {
 						r.bind[p] = cc.Args[i]
